@@ -310,6 +310,11 @@ func (e *Explorer) take(kind string, n int, cons func(i int) *Term) int {
 			}
 		}
 	}
+	return e.commit(kind, feas, cons)
+}
+
+// commit records a new decision with the given feasible options and takes the first one.
+func (e *Explorer) commit(kind string, feas []int, cons func(i int) *Term) int {
 	if len(feas) == 0 {
 		panic(pathEnd{"infeasible", kind})
 	}
